@@ -14,7 +14,7 @@ try:
     if r.returncode:
         print('patch does not apply:', r.stderr[:300]); sys.exit(3)
     for p in props:
-        env = dict(os.environ, VERIF_REPO=d)
+        env = dict(os.environ, VERIF_REPO=d, VERIF_OUT=d + '/.verif-out')
         c = subprocess.run(['/verif/check', p, tier], capture_output=True, text=True, env=env)
         lines = [l for l in c.stdout.splitlines() if l.startswith(('VIOLATION', 'INCONCLUSIVE', 'refuted', 'property='))]
         print('%s %s exit=%d' % (os.path.basename(os.path.dirname(patch)) + '/' + os.path.basename(os.path.dirname(os.path.dirname(patch))), p, c.returncode), flush=True)
